@@ -1,6 +1,6 @@
 /* bscmd: the one deterministic command used by every generated build description / ninja manifest.
  *
- *   bscmd <name> [--salt S] [--in F]... [--out F]... [--reads-file F] [--dep-out F --dep-style makefile|depinfo]
+ *   bscmd <name> [--salt S] [--in F]... [--out F]... [--reads-file F] [--dep-out F]... [--dep-style makefile|depinfo]
  *         [--env VAR]... [--fail-file F] [--sleep-ms N] [--log F] [--in-rest F...] [--log-end] [--restat]
  *
  *   --in-rest   every remaining word is an input (ninja: $in expands to several words)
@@ -66,8 +66,8 @@ static int same_content(const char* path, const char* want) {
 int main(int argc, char** argv) {
   if (argc < 2) return 2;
   const char* name = argv[1];
-  const char *salt = "", *readsFile = NULL, *depOut = NULL, *depStyle = "makefile", *failFile = NULL, *logf = getenv("BSCMD_LOG");
-  const char* ins[MAXA]; int nin = 0; const char* outs[MAXA]; int nout = 0; const char* envs[MAXA]; int nenv = 0; long sleepMs = 0; int depCorrupt = 0; int logEnd = 0, restat = 0;
+  const char *salt = "", *readsFile = NULL, *depOuts[8] = {0}, *depStyle = "makefile", *failFile = NULL, *logf = getenv("BSCMD_LOG");
+  const char* ins[MAXA]; int nin = 0; const char* outs[MAXA]; int nout = 0; const char* envs[MAXA]; int nenv = 0; long sleepMs = 0; int depCorrupt = 0, ndep = 0, depCorruptIndex = -1, depCorruptMid = 0; int logEnd = 0, restat = 0;
   for (int i = 2; i < argc; ++i) {
     const char* a = argv[i]; const char* v = i + 1 < argc ? argv[i + 1] : "";
     if (!strcmp(a, "--salt")) { salt = v; ++i; }
@@ -75,7 +75,9 @@ int main(int argc, char** argv) {
     else if (!strcmp(a, "--out") && nout < MAXA) { outs[nout++] = v; ++i; }
     else if (!strcmp(a, "--env") && nenv < MAXA) { envs[nenv++] = v; ++i; }
     else if (!strcmp(a, "--reads-file")) { readsFile = v; ++i; }
-    else if (!strcmp(a, "--dep-out")) { depOut = v; ++i; }
+    else if (!strcmp(a, "--dep-out")) { if (ndep < 8) depOuts[ndep++] = v; ++i; }   /* several files: read i is reported in file i % ndep */
+    else if (!strcmp(a, "--dep-corrupt-index")) { depCorruptIndex = atoi(v); ++i; }   /* only that file is malformed */
+    else if (!strcmp(a, "--dep-corrupt-mid")) { depCorruptMid = 1; }                  /* malformed after a well-formed prefix */
     else if (!strcmp(a, "--dep-style")) { depStyle = v; ++i; }
     else if (!strcmp(a, "--dep-corrupt")) { depCorrupt = 1; }
     else if (!strcmp(a, "--fail-file")) { failFile = v; ++i; }
@@ -116,23 +118,32 @@ int main(int argc, char** argv) {
     fprintf(f, "%016llx %s %d\n", (unsigned long long)H, name, i);
     if (fclose(f) != 0) return finish(4);
   }
-  if (depOut) {
-    FILE* f = fopen(depOut, "w");
+  for (int d = 0; d < ndep; ++d) {
+    FILE* f = fopen(depOuts[d], "w");
     if (!f) return finish(5);
-    if (depCorrupt && !strcmp(depStyle, "depinfo")) {
+    int corrupt = depCorrupt && (depCorruptIndex < 0 || depCorruptIndex == d);
+    int isInfo = !strcmp(depStyle, "depinfo");
+    if (corrupt && !depCorruptMid && isInfo) {
       fputc(0x00, f); fputs("bscmd-1", f); fputc(0, f); fputc(0x10, f); fputs("/unterminated/input/record", f);   /* no NUL terminator */
-    } else if (depCorrupt) {
+    } else if (corrupt && !depCorruptMid) {
       fputs("target", f); for (int i = 0; i < nreads; ++i) { fputc(' ', f); fputs("dep", f); } fputc('\n', f);       /* no ':' after the rule name */
-    } else if (!strcmp(depStyle, "depinfo")) {
+    } else if (isInfo) {
       fputc(0x00, f); fputs("bscmd-1", f); fputc(0, f);
-      for (int i = 0; i < nreads; ++i) { int missing = access(reads[i], F_OK) != 0; fputc(missing ? 0x11 : 0x10, f); fputs(reads[i], f); fputc(0, f); }
-      for (int i = 0; i < nout; ++i) { fputc(0x40, f); fputs(outs[i], f); fputc(0, f); }
+      int k = 0;
+      for (int i = 0; i < nreads; ++i) { if (i % ndep != d) continue; if (corrupt && k++ == 1) { fputc(0x10, f); fputc(0, f); }   /* record with an empty operand */
+        int missing = access(reads[i], F_OK) != 0; fputc(missing ? 0x11 : 0x10, f); fputs(reads[i], f); fputc(0, f); }
+      if (corrupt && k <= 1) { fputc(0x10, f); fputs("/unterminated", f); }
+      else for (int i = 0; i < nout; ++i) { fputc(0x40, f); fputs(outs[i], f); fputc(0, f); }
     } else {
       fprintf(f, "%s:", nout ? "target" : "x");
+      int k = 0;
       for (int i = 0; i < nreads; ++i) {
-        fputs(i % 2 ? " \\\n  " : " ", f);
+        if (i % ndep != d) continue;
+        if (corrupt && k == 1) fputs(" $", f);   /* a lone '$' is not a Makefile word */
+        fputs(k++ % 2 ? " \\\n  " : " ", f);
         for (const char* c = reads[i]; *c; ++c) { if (*c == ' ' || *c == '#' || *c == '\\') fputc('\\', f); if (*c == '$') fputc('$', f); fputc(*c, f); }
       }
+      if (corrupt && k <= 1) fputs(" $ x", f);
       fputc('\n', f);
     }
     fclose(f);
